@@ -73,6 +73,9 @@ let () =
   register "recreatewait" (fun _ -> obs "recreatewait intact=true");
   (* the age of a directory is nothing a read depends on *)
   register "olddir" (fun _ -> obs "olddir ok");
+  (* two copies into one destination are two sessions, serial whatever their order (Lock.v: C13_no_lost_update);
+     each writes the slots in which its source has a value (C08_successful_copy_equalizes): no value is missing *)
+  register "clicopy2" (fun _ -> obs "clicopy2 st=ok,ok lost=0");
   register "rmfile" (fun tk -> match tk with
     | [_; name] -> set_file name None; obs "rmfile ok"
     | _ -> failwith "rmfile");
